@@ -1195,9 +1195,10 @@ def flags(cf):
 
 
 def canon_cache(files):
-    """cache files are compared as the set of their rows: the statement constrains what a later run reads back from the
-    cache (compared answer by answer), and the reader does not depend on the order of the rows"""
-    return {n: sorted(t.split('\n')) if isinstance(t, str) else t for n, t in files.items()}
+    """cache files are compared as the set of their data rows: the statement constrains what a later run reads back from
+    the cache (compared answer by answer); the reader does not depend on the order of the rows, and '#' comment / header
+    rows carry no data"""
+    return {n: sorted(l for l in t.split('\n') if not l.startswith('#')) if isinstance(t, str) else t for n, t in files.items()}
 
 
 class Prop(fw.PropBase):
@@ -1387,7 +1388,7 @@ class Prop(fw.PropBase):
             mo = fw.run_model('C18', 0, vals)
             mpre = fw.run_model('C18', 1, vals)
             mspec = fw.run_model('C18', 3, vals)
-            ntr = 0
+            ntr = n_outside = 0
             for i, (c, r) in enumerate(zip(cases, res)):
                 if r.get('error'):
                     continue
@@ -1400,9 +1401,17 @@ class Prop(fw.PropBase):
                 got = [canon_impl_run(x) for x in r['runs']]
                 ntr += sum(len(x) for x in got)
                 mruns = fold(mo[i][0])
+                # outside the precondition of the statement (e.g. a sample name the cache line format cannot carry) the
+                # loading modes may legitimately answer differently: counted, not compared
+                if not pre[i]:
+                    n_outside += 1
+                    continue
                 if got != mruns:
                     j = next((j for j in range(len(got)) if j >= len(mruns) or got[j] != mruns[j]), 0)
-                    dis.append({'kind': 'model-vs-impl-answers', 'case': i, 'run': j})
+                    qd = None
+                    if j < len(got) and j < len(mruns):
+                        qd = next(([n, a, b] for n, (a, b) in enumerate(zip(got[j], mruns[j])) if a != b), None)
+                    dis.append({'kind': 'model-vs-impl-answers', 'case': i, 'run': j, 'first_differing_answer[index, impl, model]': qd})
                 mfs = {fw.as_str(n): fw.as_str(t) for n, t in mo[i][1]}
                 if canon_cache(mfs) != canon_cache(r['cache']):
                     dis.append({'kind': 'model-vs-impl-cache-files', 'case': i,
@@ -1410,6 +1419,7 @@ class Prop(fw.PropBase):
                 if pre[i] and mo[i][0] != mspec[i]:
                     dis.append({'kind': 'model-vs-spec (theorem instance!)', 'case': i})
             self.cov['traces_validated_against_impl'] = ntr
+            self.cov['histories_outside_the_precondition_not_compared'] = n_outside
             self.cov['cache_files_compared'] = sum(len(r.get('cache', {})) for r in res)
             # names / cacheable rule
             nm = [(c['history'][0]['cfg'], q[1]) for c in cases[:400] for q in expand_run(c['history'][0])[0]['queries'][:2]]
@@ -1428,9 +1438,9 @@ class Prop(fw.PropBase):
                     continue
                 idx = [n for n, op in enumerate(g['ops']) if op[0] == k]
                 got = [canon_answer(r['answers'][n]) for n in idx]
-                if got != group_fold(g, k, o6[0]):
+                if gpre[gi] and got != group_fold(g, k, o6[0]):
                     dis.append({'kind': 'model-vs-impl-answers (several objects)', 'group': gi, 'session': k})
-                if canon_cache({fw.as_str(n): fw.as_str(t) for n, t in o6[1]}) != canon_cache(r['caches'][k]):
+                if gpre[gi] and canon_cache({fw.as_str(n): fw.as_str(t) for n, t in o6[1]}) != canon_cache(r['caches'][k]):
                     dis.append({'kind': 'model-vs-impl-cache-files (several objects)', 'group': gi, 'session': k})
                 if [gspec[gi][n] for n in idx] != group_fold(g, k, o8):
                     dis.append({'kind': 'python-spec-vs-coq-spec (several objects)', 'group': gi, 'session': k})
